@@ -83,3 +83,4 @@ def run(repo, res, tier):
     # the caller's substitute classes are called positionally (no TypeError from a class whose parameters have other names)
     from .. import hookrules as _hk6c
     _hk6c.rule_hook_call(repo, res)
+    decrules.rule_real_ops(repo, res)
